@@ -426,6 +426,7 @@ func checkC09(c *Ctx, r *Report) {
 	r.rule("C09.R3", "lock-order graph acyclic; no self re-acquisition", 1)
 	r.rule("C09.R5", "after LoadOrStore on the subscriber pool the request goes on with the context that is in the pool, not with the one it offered", 1)
 	r.rule("C09.R6", "no request removes or replaces a subscriber context in the pool: a request that already fetched the context would go on with an orphan (shared with C01.R5/C10.R5)", 1)
+	r.rule("C09.R7", "the file a request writes under its subscriber's lock is the subscriber's own (named after the subscriber): a path shared by all subscribers is shared state without a common lock", 1)
 	r.rule("C09.R4", "no check-then-act on the subscriber pool without a lock (LoadOrStore or one held lock)", 1)
 
 	sa := newSharedAnalysis(c)
@@ -491,6 +492,56 @@ func checkC09(c *Ctx, r *Report) {
 
 	// ---- R4 check-then-act on the pool
 	checkPoolAtomicity(c, r, sa, "C09.R4")
+	// R7: files are shared state too: what a request writes under its subscriber's lock must be
+	// the subscriber's own file
+	{
+		df := c.fn("internal/sbi/processor", "dumpCdrFile")
+		var ueid ssa.Value
+		for _, p := range df.Params {
+			if b, ok := p.Type().Underlying().(*types.Basic); ok && b.Info()&types.IsString != 0 {
+				ueid = p
+				break
+			}
+		}
+		n := 0
+		for _, f := range withAnon(df) {
+			eachInstr(f, func(_ *ssa.BasicBlock, _ int, ins ssa.Instruction) {
+				call, ok := ins.(ssa.CallInstruction)
+				if !ok {
+					return
+				}
+				obj := calleeObj(call.Common())
+				if obj == nil || obj.Pkg() == nil {
+					return
+				}
+				var paths []ssa.Value
+				args := call.Common().Args
+				switch {
+				case obj.Pkg().Path() == "os" && (obj.Name() == "WriteFile" || obj.Name() == "Create" || obj.Name() == "OpenFile" || obj.Name() == "Remove") && len(args) >= 1:
+					paths = args[:1]
+				case obj.Pkg().Path() == "os" && obj.Name() == "Rename" && len(args) == 2:
+					paths = args[:2]
+				case strings.HasSuffix(obj.Pkg().Path(), "/cdr/cdrFile") && obj.Name() == "Encoding" && len(args) >= 2:
+					paths = args[len(args)-1:]
+				default:
+					return
+				}
+				for _, pv := range paths {
+					n++
+					own := false
+					for d := range depSet(f, pv) {
+						if d == ueid {
+							own = true
+						}
+					}
+					r.check(own, "C09.R7", fmt.Sprintf("%s|file path of %s #%d", fnKey(df), obj.Name(), n), posOf(c, ins), "the file name is built from the subscriber's identity", "the file "+obj.Name()+" works on ("+describe(pv)+") is the same for every subscriber, but the lock held around it is the subscriber's own: two subscribers served at the same time write, rename or remove each other's file - one's CDR file ends up with the other's records and the second request fails after its usage was recorded")
+				}
+			})
+		}
+		if n == 0 {
+			r.viol("C09.R7", fnKey(df)+"|file", c.rel(df.Pos()), "dumpCdrFile does not write a file (anchor moved)")
+		}
+	}
 	checkPoolLifetime(c, r, "C09.R6", "a create of the same subscriber that is in flight has fetched the context already; it registers its session in the orphaned object and is answered 201, and no serial order of the two requests explains that the acknowledged session can be neither updated nor released")
 	checkPoolWinner(c, r, "C09.R5")
 }
